@@ -194,6 +194,10 @@ func obsView(v *view) string {
 
 // addCase writes one experiment as a Coq case for Model/Crash.v.
 func addCase(sh *shared, o *observation) {
+	if o.Crash.Runner && o.Crash.Hit > 1 && o.LocalOut > o.Plan.firstWrite() {
+		sh.im.Hist("model:no-counterpart") // a slow run: the command went on beyond the history the model case describes
+		return
+	}
 	if !o.Reached || o.HeldLate || o.Unit == "" && o.Acked || strings.HasPrefix(o.AtRestart.Err, "daemon does not come back") ||
 		(o.Cycle2 != nil && strings.HasPrefix(o.Cycle2.Err, "daemon does not come back")) {
 		return
